@@ -47,8 +47,15 @@ type Rec struct {
 	WroteN int // number of WriteHeader calls
 }
 
-func NewRec() *Rec                   { return &Rec{H: make(http.Header)} }
-func (r *Rec) Header() http.Header   { return r.H }
+func NewRec() *Rec { return &Rec{H: make(http.Header)} }
+
+// Reset clears the recorder for reuse (the header map is emptied, not reallocated).
+func (r *Rec) Reset() {
+	clear(r.H)
+	r.Status, r.WroteN, r.Body = 0, 0, r.Body[:0]
+}
+
+func (r *Rec) Header() http.Header { return r.H }
 func (r *Rec) WriteHeader(code int) {
 	r.WroteN++
 	if r.Status == 0 {
